@@ -284,7 +284,8 @@ def check_receive(c, w, rec, stream, tags, auto_pong=True, sock_id=0, bytewise_f
         if evs[-1].graceful:
             ob.fail('C01' if ob.on('C01') else 'C04', 'graceful Disconnected although no Close was exchanged')
     # ---- wire: C14 pongs, C08 echo, C04 at most one Close after the violation
-    writes = [(i, e[2]) for i, e in enumerate(w.log) if e[0] == 'write' and e[1] == sock_id][1:]
+    # attempted writes (a write whose sendall was made to fail still shows what the library tried to send)
+    writes = [(i, e[2]) for i, e in enumerate(w.log) if e[0] in ('write', 'write-failed') and e[1] == sock_id][1:]
     frames = []
     wire_ok = True
     for li, data in writes:
